@@ -588,6 +588,28 @@ def corr_c12(ctx, chk, broken):
     return out, cov
 
 
+def corr_c02(ctx, chk, broken):
+    """C02: family slots as before; thorough tier adds the EXHAUSTIVE operand cubes on the real code (every A x every operand x
+    F in {00,FF} for the eight ALU operations, every A x every F for the unary / accumulator / CB-rotate instructions on A:
+    2.3 million Steps), compared with the regenerated model and the reference, in 16 slices"""
+    base = corr_slots(12, 200, family=['Alu8', 'IncDec8', 'RotShift', 'Bit'])
+    out, cov = base(ctx, chk, broken)
+    if ctx.tier == 'thorough' and not out:
+        total = 0
+        for part in range(16):
+            vectors = chk.gen_vectors('alucube', ['-seed', str(ctx.seed), '-per', str(part), '-n', '16'])
+            dis, stats, go = chk.correspond(ctx, vectors, want_spec=True)
+            total += stats.get('vectors', 0)
+            for (stream, vid, v, g, o) in dis[:3]:
+                out.append({'stream': stream, 'id': vid, 'vector': v, 'real': g, 'other': o})
+            if out:
+                break
+        cov['evaluations'] = cov.get('evaluations', 0) + total
+        cov['correspondence']['alu_cube_vectors'] = total
+        cov['rule'] += ' | thorough: exhaustive cubes on the real code — ADD/ADC/SUB/SBC/AND/XOR/OR/CP n for all 256 A x 256 n x F in {00,FF}; INC A, DEC A, DAA, CPL, NEG, SCF, CCF, RLCA, RRCA, RLA, RRA and the eight CB rotates/shifts on A for all 256 A x 256 F'
+    return out, cov
+
+
 PROPS = {
     'C01': {
         'targets': ['Z80.Props.C01', 'Z80.Props.C01Frame'],
@@ -611,7 +633,7 @@ PROPS = {
         'audit_extra': ['SpecSanity', 'SpecSanityDAA'],
         'count': HELPERS + fam('Alu8', 'IncDec8', 'RotShift', 'Bit') + ['Z80/Proofs/Families/Alu8.lean', 'Z80/Proofs/Families/IncDec8.lean',
                                                                        'Z80/Proofs/Families/RotShift.lean', 'Z80/Proofs/Families/Bit.lean', 'Z80/Props/C02.lean', 'Z80/Props/SpecSanity.lean', 'Z80/Props/SpecSanityDAA.lean'],
-        'correspond': corr_slots(12, 200, family=['Alu8', 'IncDec8', 'RotShift', 'Bit']),
+        'correspond': corr_c02,
         'assumptions': ['bits 3/5 after SCF/CCF and BIT n,(HL)/(IX+d) are implementation-defined (Impl.koron records: from A / cleared)',
                         'the reference ALU is additionally validated by formula-free sanity theorems (Props/SpecSanity*.lean): DAA is decimal adjust for all packed-BCD operands, NEG = 0-A, CP = SUB without result, INC/DEC = ADD/SUB 1 without C, parity counts ones, rotates invertible, shifts arithmetic'],
         'explanation': 'helper characterisations for all A x operand x F (symbolic for binary ops, decide over the full table for unary/DAA); 559 slot obligations; Step-level theorems for every encoding; encoding independence',
@@ -685,7 +707,7 @@ PROPS = {
         'targets': ['Z80.Props.C15'],
         'count': ['Z80/Props/C15.lean'],
         'correspond': corr_memio,
-        'assumptions': ['memio.go is modelled by hand (Z80.Spec.MemIO): Go slices/maps are reference objects on a heap, variables hold handles; tied to the code by the operation-sequence correspondence only',
+        'assumptions': ['memio.go is modelled by hand (Z80.Spec.MemIO): Go slices/maps are reference objects on a heap, variables hold handles; tied to the code by the operation-sequence correspondence, and by C15_source_pinned: the gofmt-normalised text of every function of memio.go, extracted by go2lean on each run, is the text the model was written from (any edit breaks that obligation, harmless ones included)',
                         'DumbMemory.Put outside the slice panics in Go (slice bounds) — outside the property\'s "block lying inside the slice"; the model records it as a panic that changes nothing',
                         'slices are created with cap = len (a Put may otherwise write into spare capacity)',
                         'nil MapMemory: reads give 0xC7, writes panic, Equal(nil,nil) is true — recorded in the model; the property speaks about initialised values'],
@@ -695,7 +717,7 @@ PROPS = {
         'targets': ['Z80.Props.C19'],
         'count': ['Z80/Props/C19.lean'],
         'correspond': corr_cim,
-        'assumptions': ['cmd/cim2bin and cmd/cim2cas are modelled by hand (Z80.Spec.Cim) as functions from (offset, image, name, file name) to output bytes; tied to the code by running the built binaries',
+        'assumptions': ['cmd/cim2bin and cmd/cim2cas are modelled by hand (Z80.Spec.Cim) as functions from (offset, image, name, file name) to output bytes; tied to the code (a) by go2lean\'s extraction of the ordered list of writes in run(), the byte order of writeU16, the width/padding of writeName and the default-name rule (C19_bin_program, C19_cas_program, C19_helpers_as_extracted: the extracted program IS the model), and (b) by running the built binaries',
                         'file system, flag parsing and bufio are exercised by the correspondence, not modelled',
                         'inputs whose end address does not fit in 16 bits are outside the property (the model records the uint16 wrap-around of the code)'],
         'explanation': 'for EVERY image, offset and name: cim2bin = FE + start/end/exec words + unmodified body, end = start+len-1 when it fits; cim2cas = sync header, ten D0, six-character name (truncated/space padded), sync header, words, unmodified body',
@@ -747,7 +769,7 @@ PROPS = {
                                        'function 2 (any byte), function 9 (strings of length 0..400 and one of 4096, every byte value except $, incl. 00h/80h/FFh, strings crossing 256-byte pages or ending exactly at a page end), '
                                        'unsupported function numbers, writes to other ports and port reads; then JP 0. Compared: console bytes in order, number of warnings, final PC/SP/HALT, Run result — with the regenerated CPU model '
                                        'running the BIOS bytes extracted from tinycpm.go, and with the reference'),
-        'assumptions': ['tinycpm.Memory is a 64 KiB byte array (modelled as the byte store); tinycpm.IO is modelled by hand: bytes written to port 0 reach the writer in order, any other port write and any port read only warn and reads return 0 — tied by the correspondence',
+        'assumptions': ['tinycpm.Memory is a 64 KiB byte array (modelled as the byte store); tinycpm.IO is modelled by hand: bytes written to port 0 reach the writer in order, any other port write and any port read only warn and reads return 0 — tied by the correspondence and by C18_source_pinned (the text of every function of tinycpm.go, extracted on each run, is the text the model was written from)',
                         'the BIOS pages are extracted from tinycpm.go by go2lean on every run (Gen.cpmBios); the theorems read the stub\'s bytes off that table',
                         'the caller reaches the stub through the vector at 0005h (CALL 5); the strings must not overlap the BIOS pages; Run\'s loop: C08'],
         'explanation': 'on the regenerated CPU model executing the regenerated BIOS bytes: function 2 prints E and returns (7 Steps); function 9 prints exactly the bytes up to the first $ for EVERY string (induction over the string: any length, any bytes, any address incl. wrap) and returns; SP restored, memory untouched; JP 0 halts at FF03h',
